@@ -29,5 +29,15 @@ def run(ctx):
         r = ctx.generate("RoaringDerive", cfg, mode=mode, num=num, depth=depth, timeout=1200)
         ctx.drive("bind/roaringb", "TestC03", beh=r.behaviours, env={"VERIF_K": K, "VERIF_M": M},
                   label="C03/" + cfg, timeout=3000)
+    # fragment level: rows handed out by a real fragment (file + mmap + row cache), derived
+    # from them or stored from them, under later writes, snapshot, reopen and close
+    fruns = [
+        ("C03F_d3", 2, "bfs" if thorough else "simulate", 60, 4),
+        ("C03F_sim", 3, "simulate", 40 if not thorough else 800, 9),
+    ]
+    for cfg, ncols, mode, num, depth in fruns:
+        r = ctx.generate("FragIso", cfg, mode=mode, num=num, depth=depth, timeout=1200)
+        ctx.drive("bind/isob", "TestC03Frag", beh=r.behaviours, env={"VERIF_NCOLS": ncols},
+                  label="C03/" + cfg, timeout=3000)
     ctx.exhaustive = False
     ctx.notes.append("exhaustive over all (init, derive, one perturbation) on 2 containers x 1 slot; deeper histories sampled")
